@@ -376,7 +376,10 @@ func modesFor(cs *c17Case, dec *text, seed int64, large bool) []segMode {
 		{"whole", func(d []byte) io.Reader { return &segReader{data: d, next: constSize(all)} }},
 		{"whole+eof", func(d []byte) io.Reader { return &segReader{data: d, next: constSize(all), eofWith: true} }},
 	}
-	if large {
+	if large && len(dec.b) > 300000 {
+		// (the library rescans a token from its start after every read: keep the number of reads small)
+		ms = append(ms, segMode{"65536", func(d []byte) io.Reader { return &segReader{data: d, next: constSize(65536)} }})
+	} else if large {
 		ms = append(ms,
 			segMode{"4096", func(d []byte) io.Reader { return &segReader{data: d, next: constSize(4096)} }},
 			segMode{"random<=8192", func(d []byte) io.Reader {
